@@ -63,7 +63,7 @@ def prepare_workspace(tag, repo="/repo"):
     return base, ws, lock
 
 
-HOSTS = {"nexrad-decode": "src/messages.rs"}  # harness module is a child of this module (sees its private items)
+HOSTS = {"nexrad-decode": "src/messages.rs", "nexrad-data": "src/volume.rs"}  # harness module is a child of this module (sees its private items)
 
 
 def inject(ws, crate, files, cfg="any(kani, verif_replay)"):
